@@ -1,6 +1,74 @@
-//! C03: implementation-side case runners (see props/c03.py). Stub until the property is built.
+//! C03: resource use of one control sequence / one file.
+//! `feed <emu> <w> <h> <hex bytes>` -> elapsed_us  buffer_height  lines_len  max_row_len  errors  peak_rss_kb  sixel_threads
+//!     emu: 0 ansi, 1 ansi+music, 2 avatar, 3 pcboard, 4 ctrla, 5 renegade, 6 ascii, 7 petscii, 8 atascii, 9 viewdata, 10 mode7
+//! `load <ext> <hex bytes>`          -> elapsed_us  width height lines_len ok(1)/err(0) peak_rss_kb
+use crate::util::unhex;
 use crate::Obs;
+use icy_engine::{ansi, ascii, atascii, avatar, ctrla, mode7, pcboard, petscii, renegade, viewdata, Buffer, BufferParser, Caret, TextPane};
+use std::path::Path;
 
-pub fn run(_kind: &str, _args: &[&str]) -> Option<Obs> {
-    None
+fn peak_rss_kb() -> i64 {
+    std::fs::read_to_string("/proc/self/status")
+        .ok()
+        .and_then(|s| s.lines().find(|l| l.starts_with("VmHWM:")).map(|l| l.split_whitespace().nth(1).unwrap_or("0").parse().unwrap_or(0)))
+        .unwrap_or(0)
+}
+
+pub fn make_parser(emu: i64) -> Box<dyn BufferParser> {
+    match emu {
+        0 => Box::<ansi::Parser>::default(),
+        1 => {
+            let mut p = ansi::Parser::default();
+            p.ansi_music = ansi::MusicOption::Both;
+            Box::new(p)
+        }
+        2 => Box::<avatar::Parser>::default(),
+        3 => Box::<pcboard::Parser>::default(),
+        4 => Box::<ctrla::Parser>::default(),
+        5 => Box::<renegade::Parser>::default(),
+        6 => Box::<ascii::Parser>::default(),
+        7 => Box::<petscii::Parser>::default(),
+        8 => Box::<atascii::Parser>::default(),
+        9 => Box::<viewdata::Parser>::default(),
+        _ => Box::<mode7::Parser>::default(),
+    }
+}
+
+pub fn run(kind: &str, args: &[&str]) -> Option<Obs> {
+    Some(match kind {
+        "feed" => {
+            let emu: i64 = args[0].parse().unwrap();
+            let w: i32 = args[1].parse().unwrap();
+            let h: i32 = args[2].parse().unwrap();
+            let bytes = unhex(args[3]);
+            let mut buf = Buffer::new((w, h));
+            buf.is_terminal_buffer = true;
+            let mut caret = Caret::default();
+            let mut parser = make_parser(emu);
+            let t0 = std::time::Instant::now();
+            let mut errors = 0i64;
+            for b in bytes {
+                let ch = char::from_u32(b as u32).unwrap();
+                if parser.print_char(&mut buf, 0, &mut caret, ch).is_err() {
+                    errors += 1;
+                }
+            }
+            let el = t0.elapsed().as_micros() as i64;
+            let max_row = buf.layers[0].lines.iter().map(|l| l.chars.len()).max().unwrap_or(0) as i64;
+            Ok(vec![el, buf.get_height() as i64, buf.layers[0].lines.len() as i64, max_row, errors, peak_rss_kb(), buf.sixel_threads.len() as i64])
+        }
+        "load" => {
+            let ext = args[0];
+            let bytes = unhex(args[1]);
+            let t0 = std::time::Instant::now();
+            let name = format!("x.{ext}");
+            let r = Buffer::from_bytes(Path::new(&name), true, &bytes);
+            let el = t0.elapsed().as_micros() as i64;
+            match r {
+                Ok(b) => Ok(vec![el, b.get_width() as i64, b.get_height() as i64, b.layers.first().map_or(0, |l| l.lines.len()) as i64, 1, peak_rss_kb()]),
+                Err(_) => Ok(vec![el, 0, 0, 0, 0, peak_rss_kb()]),
+            }
+        }
+        _ => return None,
+    })
 }
